@@ -53,10 +53,10 @@ def r1(run):
 
 def r2(run):
     reqs = [r for r in gc_requests(run) if r[2] == "CheckHeadTTL"]
-    run.exact("GCTask::CheckHeadTTL construction sites", len(reqs), 1)
+    run.floor("GCTask::CheckHeadTTL construction sites", len(reqs), 1)
     for (b, c, variant, agg) in reqs:
         fn = b.def_
-        run.ob("%s|CheckHeadTTL|in-append" % fn, fn == C.APPEND, c.sp, "head GC is requested from Store::append only")
+        run.ob("%s|CheckHeadTTL|in-append" % fn, fn in C.publisher_names(run.facts), c.sp, "head GC is requested from Store::append (or a sibling publisher held to the same obligations) only")
         names = agg[1]["fields"]
         vals = dict(zip(names, agg[2]))
         keep = strip(vals.get("keep", ("none",)))
